@@ -5,6 +5,7 @@ package rules
 import (
 	"fmt"
 	"go/token"
+	"go/types"
 	"strings"
 
 	"golang.org/x/tools/go/ssa"
@@ -60,7 +61,13 @@ func linOf(v ssa.Value, sym ssa.Value, env func(ssa.Value) (int64, bool)) lin {
 	return lin{}
 }
 
-func RuleM7(c *Ctx) {
+func RuleM7(c *Ctx) { ruleM7(c, false) }
+
+// RuleM7Verifier: only the table and readers the verifier depends on (barycentricWeights through ComputeBarycentricCoefficients);
+// invertedDomain and the weight ratios are read by the prover's DivideOnDomain alone.
+func RuleM7Verifier(c *Ctx) { ruleM7(c, true) }
+
+func ruleM7(c *Ctx, verifierOnly bool) {
 	c.Rule("M7", "table layout agreement: barycentricWeights holds A'(i) at i and 1/A'(i) at i+domainSize, invertedDomain holds 1/k at k-1 and -1/k at k-1+(domainSize-1); every reader computes the same positions (len/2 equal to the writer's midpoint); getInvertedElement is loop-free with the negative half selected by is_neg alone")
 	w := c.P.Fn("ipa", "", "NewPrecomputedWeights")
 	if w == nil {
@@ -73,9 +80,7 @@ func RuleM7(c *Ctx) {
 	type table struct {
 		name   string
 		length int64
-		stores []lin
 		base   ssa.Value
-		loop   *countedLoop
 	}
 	tables := map[string]*table{}
 	core.AllInstrs(w, func(i ssa.Instruction) {
@@ -102,62 +107,214 @@ func RuleM7(c *Ctx) {
 		tables[name] = t
 	})
 	cls := countedLoops(w)
-	core.AllInstrs(w, func(i ssa.Instruction) {
-		st, ok := i.(*ssa.Store)
-		if !ok {
-			return
-		}
-		ia, ok := st.Addr.(*ssa.IndexAddr)
-		if !ok {
-			return
+	// write events on a table: positions covered, as concrete index sets (the tables are a few hundred entries long)
+	type wevent struct {
+		desc string
+		pos  []int64 // nil = could not be interpreted
+	}
+	events := map[string][]wevent{}
+	// tableOff: v is the table itself or a constant re-slice of it; returns the table and the offset/length of the view
+	var viewOf func(v ssa.Value, d int) (*table, int64, int64, bool)
+	viewOf = func(v ssa.Value, d int) (*table, int64, int64, bool) {
+		if d > 4 {
+			return nil, 0, 0, false
 		}
 		for _, t := range tables {
-			if ia.X != t.base {
-				continue
+			if v == t.base {
+				return t, 0, t.length, t.length >= 0
 			}
-			cl := loopOf(cls, st.Block())
-			if cl == nil {
-				t.stores = append(t.stores, lin{})
-				continue
+		}
+		if sl, ok := v.(*ssa.Slice); ok {
+			t, off, n, ok := viewOf(sl.X, d+1)
+			if !ok {
+				return nil, 0, 0, false
 			}
-			t.loop = cl
-			t.stores = append(t.stores, linOf(ia.Index, cl.phi, nil))
+			lo, hi := int64(0), n
+			if sl.Low != nil {
+				l := linOf(sl.Low, nil, nil)
+				if !l.ok {
+					return nil, 0, 0, false
+				}
+				lo = l.b
+			}
+			if sl.High != nil {
+				h := linOf(sl.High, nil, nil)
+				if !h.ok {
+					return nil, 0, 0, false
+				}
+				hi = h.b
+			}
+			return t, off + lo, hi - lo, true
+		}
+		return nil, 0, 0, false
+	}
+	// lenOfSlice: the constant length of a slice value
+	var lenOfSlice func(v ssa.Value, d int) (int64, bool)
+	lenOfSlice = func(v ssa.Value, d int) (int64, bool) {
+		if d > 4 {
+			return 0, false
+		}
+		if _, _, n, ok := viewOf(v, 0); ok {
+			return n, true
+		}
+		switch x := v.(type) {
+		case *ssa.MakeSlice:
+			if l := linOf(x.Len, nil, nil); l.ok {
+				return l.b, true
+			}
+		case *ssa.Slice:
+			n, ok := lenOfSlice(x.X, d+1)
+			if !ok {
+				return 0, false
+			}
+			lo, hi := int64(0), n
+			if x.Low != nil {
+				l := linOf(x.Low, nil, nil)
+				if !l.ok {
+					return 0, false
+				}
+				lo = l.b
+			}
+			if x.High != nil {
+				h := linOf(x.High, nil, nil)
+				if !h.ok {
+					return 0, false
+				}
+				hi = h.b
+			}
+			return hi - lo, true
+		case *ssa.Call:
+			// a function that returns a fresh slice as long as its first argument (BatchInvert)
+			if f := core.Callee(x.Common()); f != nil && len(x.Call.Args) == 1 && returnsLenOfParam0(f) {
+				return lenOfSlice(x.Call.Args[0], d+1)
+			}
+		}
+		return 0, false
+	}
+	loopRange := func(b *ssa.BasicBlock) (cl *countedLoop, from, to int64, ok bool) {
+		cl = loopOf(cls, b)
+		if cl == nil {
+			return nil, 0, 0, false
+		}
+		a, isA := core.ConstInt(cl.init)
+		bd := linOf(cl.bound, nil, nil)
+		if !isA || !bd.ok || cl.step != 1 {
+			return cl, 0, 0, false
+		}
+		switch cl.op {
+		case token.LSS:
+			return cl, a, bd.b, true
+		case token.LEQ:
+			return cl, a, bd.b + 1, true
+		}
+		return cl, 0, 0, false
+	}
+	indexed := func(ia *ssa.IndexAddr, at ssa.Instruction, how string) {
+		t, off, _, ok := viewOf(ia.X, 0)
+		if !ok {
+			return
+		}
+		ev := wevent{desc: how}
+		if k, isK := core.ConstInt(ia.Index); isK {
+			ev.pos = []int64{off + k}
+			ev.desc = fmt.Sprintf("%s at [%d]", how, off+k)
+		} else if cl, from, to, okR := loopRange(at.Block()); okR {
+			if f := linOf(ia.Index, cl.phi, nil); f.ok {
+				ev.pos = []int64{}
+				for i := from; i < to; i++ {
+					ev.pos = append(ev.pos, off+f.a*i+f.b)
+				}
+				ev.desc = fmt.Sprintf("%s at [%d*i%+d] for i in [%d,%d)", how, f.a, off+f.b, from, to)
+			}
+		}
+		if ev.pos == nil {
+			ev.desc = how + " at an index that is not a linear function of a counted loop variable (" + c.P.Pos(at.Pos()) + ")"
+		}
+		events[t.name] = append(events[t.name], ev)
+	}
+	core.AllInstrs(w, func(i ssa.Instruction) {
+		switch x := i.(type) {
+		case *ssa.Store:
+			if ia, ok := x.Addr.(*ssa.IndexAddr); ok {
+				indexed(ia, x, "store")
+			}
+		case *ssa.Call:
+			cc := x.Common()
+			if bi, isB := cc.Value.(*ssa.Builtin); isB {
+				if bi.Name() == "copy" {
+					if t, off, n, ok := viewOf(cc.Args[0], 0); ok {
+						ev := wevent{desc: "copy whose source length is not a constant (" + c.P.Pos(x.Pos()) + ")"}
+						if m, okL := lenOfSlice(cc.Args[1], 0); okL {
+							if m < n {
+								n = m
+							}
+							ev.pos = []int64{}
+							for k := int64(0); k < n; k++ {
+								ev.pos = append(ev.pos, off+k)
+							}
+							ev.desc = fmt.Sprintf("copy into [%d,%d)", off, off+n)
+						}
+						events[t.name] = append(events[t.name], ev)
+					}
+				}
+				return
+			}
+			if cc.IsInvoke() || len(cc.Args) == 0 {
+				return
+			}
+			// a mutator applied to an entry: tbl[idx].Op(...)
+			if ia, ok := cc.Args[0].(*ssa.IndexAddr); ok {
+				callee := core.Callee(cc)
+				if callee != nil && callee.Signature.Recv() != nil {
+					if _, isPtr := callee.Signature.Recv().Type().(*types.Pointer); isPtr && !gnarkObservers[callee.Name()] {
+						indexed(ia, x, callee.Name())
+					}
+				}
+			}
 		}
 	})
-	check := func(name string, wantLen int64, wantForms []lin, from, to int64) {
+	check := func(name string, wantLen int64) {
 		t := tables[name]
 		key := "writer:" + name
 		if t == nil {
 			c.Und("M7", key, w.Pos(), "table "+name+" is not built by NewPrecomputedWeights as a make + indexed stores")
 			return
 		}
-		ok := t.length == wantLen && len(t.stores) == len(wantForms) && t.loop != nil
-		if ok {
-			for _, want := range wantForms {
-				found := false
-				for _, got := range t.stores {
-					if got == want {
-						found = true
-					}
+		var descs, problems []string
+		covered := map[int64]bool{}
+		for _, ev := range events[name] {
+			descs = append(descs, ev.desc)
+			for _, p := range ev.pos {
+				if p < 0 || p >= t.length {
+					problems = append(problems, fmt.Sprintf("%s reaches position %d outside the table", ev.desc, p))
+					break
 				}
-				if !found {
-					ok = false
-				}
-			}
-			a, isA := core.ConstInt(t.loop.init)
-			b := linOf(t.loop.bound, nil, nil)
-			if !isA || a != from || !b.ok || b.b != to || t.loop.step != 1 || t.loop.op != token.LSS {
-				ok = false
+				covered[p] = true
 			}
 		}
-		var got []string
-		for _, s := range t.stores {
-			got = append(got, fmt.Sprintf("%d*i%+d", s.a, s.b))
+		if t.length != wantLen {
+			problems = append(problems, fmt.Sprintf("length is %d, not %d", t.length, wantLen))
 		}
-		c.Check(ok, "M7", key, w.Pos(), fmt.Sprintf("table %s: length %d, stores at %v for i in [%d,%d) expected; found length %d, stores %v", name, wantLen, wantForms, from, to, t.length, got), fmt.Sprintf("length %d; stores %v", t.length, got))
+		var missing []string
+		for p := int64(0); p < t.length; p++ {
+			if !covered[p] {
+				missing = append(missing, fmt.Sprint(p))
+			}
+		}
+		if len(missing) > 0 {
+			show := missing
+			if len(show) > 6 {
+				show = append(show[:6:6], "...")
+			}
+			problems = append(problems, fmt.Sprintf("%d of its %d entries are never written and stay zero: positions %s", len(missing), t.length, strings.Join(show, ",")))
+		}
+		c.Check(len(problems) == 0, "M7", key, w.Pos(), fmt.Sprintf("table %s (readers index it up to %d): %s [writes: %s]", name, wantLen-1, strings.Join(problems, "; "), strings.Join(descs, "; ")),
+			fmt.Sprintf("length %d; every position written: %s", t.length, strings.Join(descs, "; ")))
 	}
-	check("barycentricWeights", 2*ds, []lin{{1, 0, true}, {1, ds, true}}, 0, ds)
-	check("invertedDomain", 2*(ds-1), []lin{{1, -1, true}, {1, -1 + (ds - 1), true}}, 1, ds)
+	check("barycentricWeights", 2*ds)
+	if !verifierOnly {
+		check("invertedDomain", 2*(ds-1))
+	}
 
 	// readers
 	half := func(table string) func(ssa.Value) (int64, bool) {
@@ -226,6 +383,11 @@ func RuleM7(c *Ctx) {
 			}
 		}
 		c.Check(found, "M7", key, fn.Pos(), fmt.Sprintf("%s reads %s at %v; the writer placed the wanted entry at %d*%s%+d (%s)", fnName, table, got, want.a, param, want.b, cond), fmt.Sprintf("reads at %v", got))
+	}
+	if verifierOnly {
+		reader("ComputeBarycentricCoefficients", "barycentricWeights", "", lin{1, 0, true}, "A'(i)")
+		c.Floor("M7", 2, "table facts")
+		return
 	}
 	reader("getRatioOfWeights", "barycentricWeights", "numerator", lin{1, 0, true}, "A'(numerator)")
 	reader("getRatioOfWeights", "barycentricWeights", "denominator", lin{1, ds, true}, "1/A'(denominator)")
@@ -302,4 +464,29 @@ func RuleM7(c *Ctx) {
 		c.Check(ok, "M7", "getInvertedElement:two-paths-by-is_neg", fn.Pos(), "getInvertedElement does not select index element-1 when is_neg is false and element-1+len/2 when it is true, by is_neg alone (e.g. an extra condition on the magnitude)", "is_neg=false -> element-1; is_neg=true -> element-1+len/2; no other condition")
 	}
 	c.Floor("M7", 9, "table facts")
+}
+
+// returnsLenOfParam0: every return of f hands back a slice made with len(first parameter) entries.
+func returnsLenOfParam0(f *ssa.Function) bool {
+	if len(f.Blocks) == 0 || len(f.Params) != 1 {
+		return false
+	}
+	rets := core.Returns(f)
+	if len(rets) == 0 {
+		return false
+	}
+	for _, r := range rets {
+		if len(r.Results) != 1 {
+			return false
+		}
+		mk, ok := r.Results[0].(*ssa.MakeSlice)
+		if !ok {
+			return false
+		}
+		x, isLen := core.IsLenOf(mk.Len)
+		if !isLen || x != ssa.Value(f.Params[0]) {
+			return false
+		}
+	}
+	return true
 }
